@@ -31,6 +31,11 @@ def run(res, tier, replay):
     combos = [(0, 0), (1, 0), (0, 1), (1, 1)]
     for i in range(n):
         c = gen.cab_single(rng, big=(i % 3 == 0)) if i % 3 else gen.cab_set(rng)
+        if i % 6 == 1:
+            # a Quantum folder with a window smaller than a frame whose data never wraps it: decodes in strict mode, must decode the same relaxed
+            wbq = [10, 12, 14, 11, 13][(i // 6) % 5]
+            c = gen.CabCase(); fo = cabfmt.Folder(("qtm", wbq), [cabfmt.Member(b"s%d.bin" % j, length=[414, 350, 200][j]) for j in range(3)])
+            c.folders = [fo]; c.kw = {}; c.files["in0.cab"] = cabfmt.build_single([fo], rng, with_ck=True); c.parts = ["in0.cab"]; c.members = list(fo.members)
         for combo in combos:
             scns.append(scn(c.files, c.parts, combo, len(c.members))); meta.append(("valid", i, combo, c, None))
         if len(c.parts) == 1:
@@ -109,7 +114,8 @@ def run(res, tier, replay):
         if kind == "valid":
             if combo == (0, 0): base[i] = (opens, files, exs)
             if got != want or not good_ex:
-                if not (qtm_small and got == want): why = "valid archive under salvage=%d fixmszip=%d: listing ok=%s, extraction ok=%s" % (combo[0], combo[1], got == want, good_ex)
+                # (small-window Quantum folders can fail in every mode alike: recorded finding qtm-small-window-wrap; excused only when this run equals the strict one)
+                if not (qtm_small and got == want and (combo == (0, 0) or (i in base and base[i] == (opens, files, exs)))): why = "valid archive under salvage=%d fixmszip=%d: listing ok=%s, extraction ok=%s" % (combo[0], combo[1], got == want, good_ex)
             elif i in base and base[i] != (opens, files, exs): why = "valid archive gives different results under salvage=%d fixmszip=%d than in strict mode" % combo
         elif kind == "cksum":
             all_mszip = all(f.method[0] == "mszip" for f in c.folders)
